@@ -503,6 +503,17 @@ def run_history(job):
 DOCUMENTED_ORDER = ("DFXPReader", "MicroDVDReader", "WebVTTReader", "SAMIReader", "SRTReader", "SCCReader")
 
 
+def _reader_name(r, R):
+    """The documented name of what detect_format returned, by identity (a renamed class that is still exported
+    under the documented name is that reader); anything else by its own name / repr."""
+    if r is None:
+        return None
+    for name in DOCUMENTED_ORDER:
+        if r is R[name]:
+            return name
+    return getattr(r, "__name__", None) or repr(r)
+
+
 def detect_one(s, R=None):
     """What detect_format does with s, and what each documented sniffer does on its own (fresh object each)."""
     import pycaption
@@ -510,7 +521,7 @@ def detect_one(s, R=None):
         R, _ = _classes()
     try:
         r = pycaption.detect_format(s)
-        df = ["ret", None if r is None else getattr(r, "__name__", repr(r))]
+        df = ["ret", _reader_name(r, R)]
     except BaseException as e:
         # the documented error is judged with isinstance: a more specific subclass is still that error
         df = ["exc", "CaptionReadNoCaptions" if isinstance(e, pycaption.CaptionReadNoCaptions) else type(e).__name__]
@@ -553,7 +564,7 @@ def run_pipeline_batch(job):
             continue
         try:
             r = pycaption.detect_format(text)
-            rec["detected"] = None if r is None else r.__name__
+            rec["detected"] = _reader_name(r, R)
         except BaseException as e:
             rec["detect_exc"] = type(e).__name__
             out.append(rec)
